@@ -37,9 +37,11 @@ pub enum Deco {
     SpaceBeforeCrlf,
     /// a quoted extension value with obs-text bytes that are not UTF-8
     ExtObsText,
+    /// twenty leading zeros: more hex digits than a 64-bit size has
+    ManyZeros,
 }
 
-pub const ALL_DECOS: [Deco; 7] = [
+pub const ALL_DECOS: [Deco; 8] = [
     Deco::Plain,
     Deco::Upper,
     Deco::LeadingZeros,
@@ -47,6 +49,7 @@ pub const ALL_DECOS: [Deco; 7] = [
     Deco::ExtVal,
     Deco::SpaceBeforeCrlf,
     Deco::ExtObsText,
+    Deco::ManyZeros,
 ];
 
 pub fn size_line(n: usize, deco: Deco) -> Vec<u8> {
@@ -59,6 +62,7 @@ pub fn size_line(n: usize, deco: Deco) -> Vec<u8> {
         Deco::Plain => format!("{n:x}\r\n"),
         Deco::Upper => format!("{n:X}\r\n"),
         Deco::LeadingZeros => format!("000{n:x}\r\n"),
+        Deco::ManyZeros => format!("00000000000000000000{n:x}\r\n"),
         Deco::Ext => format!("{n:x};ext\r\n"),
         Deco::ExtVal => format!("{n:x};ext=val;b=\"q\"\r\n"),
         Deco::SpaceBeforeCrlf => format!("{n:x} \r\n"),
